@@ -338,6 +338,52 @@ func c33RunRT(st *c33Stores, c c33RT) (out c33RTOutcome) {
 			check(backend, "LoadNamespaces", g, nil)
 		}
 	}
+	// second generation: what a load returned (decrypted, is_encrypt still true) is saved again
+	// the way the control plane does it (rollback in ModifyNamespace stores the loaded previous
+	// version; a fetched configuration is edited and resubmitted) and must load again
+	gen2 := func(backend string, s *Store) {
+		for _, edit := range []bool{false, true} {
+			path := "gen2.LoadNamespace"
+			loaded, err := s.LoadNamespace(key, sub.Name)
+			if err != nil || loaded == nil {
+				return // already reported by the first-generation checks
+			}
+			want2, _ := c33Gen(c)
+			if want2.Verify() != nil {
+				return
+			}
+			if edit {
+				path = "gen2edit.LoadNamespace"
+				loaded.MaxSqlExecuteTime += 7
+				want2.MaxSqlExecuteTime += 7
+				loaded.Users[0].Password = "edited\xff" + loaded.Users[0].Password
+				want2.Users[0].Password = "edited\xff" + want2.Users[0].Password
+			}
+			if err := loaded.Verify(); err != nil {
+				return // refused loudly (e.g. a password that the first Verify trimmed to nothing)
+			}
+			if want2.Verify() != nil {
+				return
+			}
+			if err := loaded.Encrypt(key); err != nil {
+				fail(backend+"."+path+":encrypt-error", err)
+				return
+			}
+			if err := s.UpdateNamespace(loaded); err != nil {
+				fail(backend+"."+path+":store-error", err)
+				return
+			}
+			got, err := s.LoadNamespace(key, sub.Name)
+			if err != nil {
+				fail(backend+"."+path+":load-error", err)
+				return
+			}
+			if d := c33Diff(got, want2); d != "" {
+				fail(backend+"."+path+":differs:"+d, nil)
+				return
+			}
+		}
+	}
 	// coordinator = fake etcd through the real etcd client
 	if !c.Etcd {
 		// local store only
@@ -375,6 +421,7 @@ func c33RunRT(st *c33Stores, c c33RT) (out c33RTOutcome) {
 			got, err := st.localCopy.LoadNamespace(key, sub.Name)
 			check("copy", "LoadNamespace", got, err)
 		}
+		gen2("etcd", st.etcd)
 		st.etcd.DelNamespace(sub.Name)
 		st.localCopy.DelNamespace(sub.Name)
 	}
@@ -386,6 +433,7 @@ func c33RunRT(st *c33Stores, c c33RT) (out c33RTOutcome) {
 	} else {
 		out.Rejected = ""
 		loadAll("local", st.local)
+		gen2("local", st.local)
 		st.local.DelNamespace(sub.Name)
 	}
 	return
@@ -1158,6 +1206,9 @@ func TestVerif_C33(t *testing.T) {
 			return
 		}
 		switch {
+		case probe.Case != nil && probe.Case.Part == "sync":
+			// a witness of part b (proxy/server); this part runs its plain baseline case
+			c33RoundTrip(rec, &c33RT{Part: "roundtrip", State: 1, NameCls: "plain", CredCls: "ascii", KeyLen: 16, Etcd: true})
 		case probe.Case != nil:
 			c33RoundTrip(rec, probe.Case)
 		case probe.Part == "decrypt":
